@@ -288,6 +288,9 @@ for _n in ("boundary_edges", "interior_edges", "boundary_vertices", "interior_ve
     ARGK[_n] = ""
 
 
+FILE_OPS = {"copy", "merge", "attr_vertices", "save", "row_edge", "row_face", "row_cell"}
+
+
 def counts(m):
     return [type(m).__name__, len(m.vertices)] + [len(getattr(m, k)) if hasattr(m, k) else None for k in ("edges", "faces", "cells")]
 
@@ -428,7 +431,10 @@ def run_route(case, route):
         except Exception as ex:
             stages.append({"err": type(ex).__name__, "msg": str(ex)[:120]})
             return dict(res, stages=stages, script=[])
-    return dict(res, stages=stages, script=run_script(m, case.get("script", [])))
+    script = case.get("script", [])
+    if "input" in res:   # a file may give another class than the raw data (cells lost in .obj, ...): container-level ops only
+        script = [q for q in script if q[0] in FILE_OPS]
+    return dict(res, stages=stages, script=run_script(m, script))
 
 
 def main():
